@@ -235,6 +235,44 @@ func c10GrowGuard(fr *c10Frame, at ast.Node, T ast.Expr, c1 int64, X ast.Expr) s
 	return ""
 }
 
+// c10IsBoolSet: []bool or map[<integer>]bool, a set of indexes kept as flags.
+func c10IsBoolSet(t types.Type) bool {
+	if t == nil {
+		return false
+	}
+	var el types.Type
+	switch u := t.Underlying().(type) {
+	case *types.Slice:
+		el = u.Elem()
+	case *types.Map:
+		if kb, ok := u.Key().Underlying().(*types.Basic); !ok || kb.Info()&types.IsInteger == 0 {
+			return false
+		}
+		el = u.Elem()
+	default:
+		return false
+	}
+	bt, ok := el.Underlying().(*types.Basic)
+	return ok && bt.Info()&types.IsBoolean != 0
+}
+
+// c10ResizedBetween: some X.Set(..) / X.SetLen(..) of f lies between the two positions.
+func c10ResizedBetween(f *kit.Func, X ast.Expr, from, to token.Pos) bool {
+	hit := false
+	ast.Inspect(f.Body, func(x ast.Node) bool {
+		if call, ok := x.(*ast.CallExpr); ok && call.Pos() > from && call.Pos() < to {
+			switch kit.RCallName(f.Info(), call) {
+			case "Value.Set", "Value.SetLen":
+				if kit.SameExpr(f.Info(), call.Fun.(*ast.SelectorExpr).X, X) {
+					hit = true
+				}
+			}
+		}
+		return true
+	})
+	return hit
+}
+
 type c10TrimVerdict struct {
 	initAt, bad, und string
 	ndefs            int
@@ -287,6 +325,16 @@ func c10TrimDefs(fr *c10Frame, B *types.Var, c1 int64, X ast.Expr, needInit bool
 		v.ndefs++
 		if as, ok := stmt.(*ast.AssignStmt); ok && as.Tok == token.DEFINE && !dec {
 			t, c0 := c10PlusConst(info, rhs)
+			// the length kept in a local (`n := X.Len()`) stands for Len() as
+			// long as no resize of X lies between its definition and this use
+			if needInit && X != nil && !c10IsLenOf(f, t, X) {
+				if r := c10ResolveLocal(f, t); r != t {
+					t2, c2 := c10PlusConst(info, r)
+					if c10IsLenOf(f, t2, X) && !c10ResizedBetween(f, X, t2.Pos(), stmt.Pos()) {
+						t, c0 = t2, c0+c2
+					}
+				}
+			}
 			switch {
 			case !needInit || X == nil || !c10IsLenOf(f, t, X):
 				v.und = fmt.Sprintf("trim bound %s starts from %s, not from Len()", B.Name(), f.Str(rhs))
@@ -310,6 +358,9 @@ func c10TrimDefs(fr *c10Frame, B *types.Var, c1 int64, X ast.Expr, needInit bool
 							readsDeleted = true
 						}
 					}
+					if c10IsBoolSet(info.TypeOf(ix.X)) {
+						readsDeleted = true
+					}
 				}
 				return true
 			})
@@ -319,6 +370,24 @@ func c10TrimDefs(fr *c10Frame, B *types.Var, c1 int64, X ast.Expr, needInit bool
 				continue
 			}
 			for _, leaf := range c10Leaves(gd.cond, token.LAND) {
+				// membership kept as a set of flags: `d[<last index>]` with d a
+				// local []bool / map[int]bool
+				if ix, ok := leaf.(*ast.IndexExpr); ok && c10IsBoolSet(info.TypeOf(ix.X)) {
+					t0, k0 := c10PlusConst(info, ix.Index)
+					if r := c10ResolveLocal(f, t0); r != t0 && kit.ObjOf(info, t0) != types.Object(B) {
+						t1, k1 := c10PlusConst(info, r)
+						t0, k0 = t1, k0+k1
+					}
+					d, isVar := kit.ObjOf(info, ix.X).(*types.Var)
+					if kit.ObjOf(info, t0) == types.Object(B) && k0 == c1-1 && isVar && !d.IsField() {
+						member = f.Str(leaf)
+						if !seenD[d] {
+							seenD[d] = true
+							v.deleted = append(v.deleted, ix.X)
+						}
+					}
+					continue
+				}
 				be, ok := leaf.(*ast.BinaryExpr)
 				if !ok || be.Op != token.EQL {
 					continue
@@ -398,18 +467,45 @@ func c10DeletedPure(fr *c10Frame, d ast.Expr) (okMsg, bad, und string) {
 		return "", "", "deleted-index collection " + f.Str(d) + " is not a local variable"
 	}
 	n := 0
+	boolSet := c10IsBoolSet(obj.Type())
 	ast.Inspect(f.Body, func(x ast.Node) bool {
 		as, ok := x.(*ast.AssignStmt)
 		if !ok {
 			return true
 		}
 		for k, l := range as.Lhs {
-			if kit.ObjOf(info, l) != obj || k >= len(as.Rhs) {
+			// a set of flags: `d[i] = true` is what append is for a list of indexes
+			isFlag := false
+			if ix, ok := ast.Unparen(l).(*ast.IndexExpr); ok && boolSet && kit.ObjOf(info, ix.X) == obj && k < len(as.Rhs) && len(as.Lhs) == len(as.Rhs) {
+				if tv, ok := info.Types[as.Rhs[k]]; ok && tv.Value != nil {
+					if tv.Value.String() == "false" {
+						continue
+					}
+					isFlag = true
+				} else {
+					und = fmt.Sprintf("%s at %s", f.Str(as), f.At(as))
+					continue
+				}
+			}
+			if !isFlag && (kit.ObjOf(info, l) != obj || k >= len(as.Rhs)) {
 				continue
 			}
 			rhs := ast.Unparen(as.Rhs[k])
 			if lit, ok := rhs.(*ast.CompositeLit); ok && len(lit.Elts) == 0 {
 				continue
+			}
+			// make: no flag is set; a list of indexes must start empty
+			if mk, ok := rhs.(*ast.CallExpr); ok && !isFlag {
+				if b, isB := kit.Callee(info, mk).(*types.Builtin); isB && b.Name() == "make" {
+					if boolSet {
+						continue
+					}
+					if len(mk.Args) >= 2 {
+						if c, isC := kit.ConstInt(info, mk.Args[1]); isC && c == 0 {
+							continue
+						}
+					}
+				}
 			}
 			// taken from a pool, or cut to length 0: where the collection starts;
 			// that it holds nothing of an earlier call then is R10's obligation
@@ -421,14 +517,16 @@ func c10DeletedPure(fr *c10Frame, d ast.Expr) (okMsg, bad, und string) {
 					continue
 				}
 			}
-			call, ok := rhs.(*ast.CallExpr)
-			if !ok {
-				und = fmt.Sprintf("%s at %s", f.Str(as), f.At(as))
-				continue
-			}
-			if b, isB := kit.Callee(info, call).(*types.Builtin); !isB || b.Name() != "append" || kit.ObjOf(info, call.Args[0]) != obj {
-				und = fmt.Sprintf("%s at %s", f.Str(as), f.At(as))
-				continue
+			if !isFlag {
+				call, ok := rhs.(*ast.CallExpr)
+				if !ok {
+					und = fmt.Sprintf("%s at %s", f.Str(as), f.At(as))
+					continue
+				}
+				if b, isB := kit.Callee(info, call).(*types.Builtin); !isB || b.Name() != "append" || kit.ObjOf(info, call.Args[0]) != obj {
+					und = fmt.Sprintf("%s at %s", f.Str(as), f.At(as))
+					continue
+				}
 			}
 			n++
 			tomb, anyGuard := false, false
@@ -472,6 +570,9 @@ func c10DeletedPure(fr *c10Frame, d ast.Expr) (okMsg, bad, und string) {
 	})
 	if bad == "" && und == "" && n == 0 {
 		und = "nothing is ever appended to " + f.Str(d)
+	}
+	if boolSet {
+		return fmt.Sprintf("%s in %s: %d flag(s) set, each under a Tombstone test", f.Str(d), f.Name, n), bad, und
 	}
 	return fmt.Sprintf("%s in %s: %d append(s), each under a Tombstone test", f.Str(d), f.Name, n), bad, und
 }
